@@ -1,0 +1,42 @@
+//go:build verif
+
+package parser
+
+import (
+	"strconv"
+	"strings"
+	"text/scanner"
+)
+
+// VerifScanTokens returns the token stream the parser's lexer produces for src, one string per
+// token: IDENT:<text>, KW:<text>, INT:<value>, STR:<text>, P:<char> for punctuation, FLOAT:<text>,
+// and the number of scanner errors (verification hook, build tag `verif`).
+func VerifScanTokens(src string) ([]string, int) {
+	l := newLexer("", strings.NewReader(src))
+	var out []string
+	for {
+		var lval yySymType
+		t := l.Lex(&lval)
+		if t == EOF {
+			break
+		}
+		switch {
+		case t == IDENT:
+			out = append(out, "IDENT:"+lval.ident)
+		case t == INTEGER:
+			out = append(out, "INT:"+strconv.Itoa(lval.integer))
+		case t == STRING:
+			out = append(out, "STR:"+lval.string)
+		case t == int(scanner.Float):
+			out = append(out, "FLOAT:"+lval.string)
+		case t >= ANY && t <= SUBSERVICE:
+			out = append(out, "KW:"+lval.string)
+		default:
+			out = append(out, "P:"+lval.string)
+		}
+		if len(out) > 1<<20 {
+			break
+		}
+	}
+	return out, l.s.ErrorCount
+}
